@@ -21,19 +21,21 @@ L1 == <<O("mss"), O("nop"), O("ws")>>
 L2 == <<O("mss"), O("sok"), O("ts"), O("nop"), O("ws")>>
 VerS == <<"4", "6", "*">>
 PcS == <<"0", "+", "*">>
-LayS == <<L1, L2>>
+\* an end-of-options marker that is not the last element (what the analyzer reports when option bytes follow it)
+L3 == <<O("mss"), OEol(2), O("nop"), OEol(0)>>
+LayS == <<L1, L2, L3>>
 MssS == <<-1, 1460>>
 TtlS == <<TtlV(64), TtlV(128)>>
-NT == 3 * 3 * 2 * 2 * 2
+NT == 3 * 3 * 3 * 2 * 2
 TcpSigAt(k) ==
   LET d1 == k % 3  r1 == k \div 3
       d2 == r1 % 3 r2 == r1 \div 3
-      d3 == r2 % 2 r3 == r2 \div 2
+      d3 == r2 % 3 r3 == r2 \div 3
       d4 == r3 % 2 d5 == r3 \div 2
   IN [ver |-> VerS[d1 + 1], pclass |-> PcS[d2 + 1], olayout |-> LayS[d3 + 1], mss |-> MssS[d4 + 1], ittl |-> TtlS[d5 + 1],
       olen |-> 0, wsize |-> W("mss", 4), wscale |-> 7, quirks |-> <<"df", "id+">>]
 TcpObs == {[ver |-> v, pclass |-> p, olayout |-> l, mss |-> m, ittl |-> t, olen |-> 0, wsize |-> W("mss", 4), wscale |-> 7, quirks |-> <<"df", "id+">>] :
-             v \in {"4", "6"}, p \in {"0", "+"}, l \in {L1, L2}, m \in {1460, 1400}, t \in {TtlD(57, 7), TtlD(120, 8)}}
+             v \in {"4", "6"}, p \in {"0", "+"}, l \in {L1, L2, L3}, m \in {1460, 1400}, t \in {TtlD(57, 7), TtlD(120, 8)}}
 
 Extra(n) == [i \in 1..n |-> H("X-Extra-" \o ToString(i))]
 HVerS == <<"0", "1", "*">>
